@@ -115,3 +115,10 @@ Theorem C04_dataclass_entry_over_all_fields_refuted :
   exists fs i, dc_entry_field fs i <> dc_entry_field_all fs i /\ dc_entry_field fs i <> None.
 Proof. exact dc_entry_all_fields_refuted. Qed.
 Print Assumptions C04_dataclass_entry_over_all_fields_refuted.
+
+(* slicing and concatenating accessors composes access: applying p ++ q is applying p, then q to what p
+   reached; so for any split acc = acc[:k] + acc[k:] of the i-th accessor the two halves reach the leaf *)
+Theorem C04_accessor_composition :
+  forall o p q, get_path o (p ++ q) = match get_path o p with Some x => get_path x q | None => None end.
+Proof. exact get_path_app. Qed.
+Print Assumptions C04_accessor_composition.
